@@ -73,7 +73,7 @@ CLAIMS = {
                 'asked twice, self never asked, at most 2|U|+3 replies (termination), result = first 16 of the sorted list of everything seen, '
                 'cancellation drains without asking; content lookup = first supplied content or not-found. The real lookup is replayed under '
                 'testing/synctest with PRNG-chosen release orders and cancellations and must start exactly the queries the model starts.',
-        'note': TB + 'ContentLookup is modelled at the level of the CAS on the result flag only; its channel/close protocol is exercised by the C08 two-node runs, not by this check. '
+        'note': TB + 'ContentLookup is modelled at the level of the CAS on the result flag; its channel/close protocol is exercised on small real networks (relation: genuine bytes / not-found / returns). '
                 'Needs GOEXPERIMENT=synctest (go1.24.2, offline).',
         'technique': 'Lean 4 invariant + well-founded measure proofs + schedule-controlled differential correspondence (synctest)',
     },
